@@ -3,6 +3,8 @@
   (first part: capacity; the session theorems follow below)
 -/
 import J1939.Model.Dll22
+import J1939.Lemmas.Trace22
+import J1939.Lemmas.Bits
 import J1939.Lemmas.PyDict
 import J1939.Lemmas.Tactics
 namespace J1939.Props.C02
@@ -86,5 +88,133 @@ theorem c02_notify_keeps_pools (cfg : Cfg) (s : St) (now : Nat) (acc : Nat → B
 
 /-- the advertised capacity is the reflected pool sizes: 8 destination-specific and 4 broadcast sessions -/
 theorem c02_capacity : Const.Pool.rts_cts = 8 ∧ Const.Pool.bam = 4 ∧ (St.rtsPool {}).length = 8 ∧ (St.bamPool {}).length = 4 := by decide
+
+-- ------------------------------------------------------------------------------------------------ the data path
+/-- SEGMENTATION: the chunks the originator keeps are the consecutive 60-byte pieces of the message; concatenated
+    they are the message (for every length; a length that is a multiple of 60 has an empty last chunk that is never sent) -/
+theorem c02_chunks_get (data : List Nat) (k : Nat) (hk : k < Tp22.num_segments data.length) :
+    (chunks60 data)[k]? = some ((data.drop (60 * k)).take 60) := by
+  unfold chunks60
+  have hTP : Const.DL22.TP = 60 := rfl
+  simp only [hTP]
+  by_cases hfull : k < data.length / 60
+  · rw [List.getElem?_append_left (by simpa using hfull)]
+    simp [hfull, Nat.mul_comm]
+  · have hns : Tp22.num_segments data.length = data.length / 60 + (if data.length % 60 != 0 then 1 else 0) := by
+      unfold Tp22.num_segments Py.b2n; rfl
+    have hke : k = data.length / 60 := by
+      rw [hns] at hk
+      split at hk <;> omega
+    rw [List.getElem?_append_right (by simp; omega)]
+    simp only [List.length_map, List.length_range, hke, Nat.sub_self, List.getElem?_cons_zero, Option.some.injEq]
+    rw [Nat.mul_comm]
+    exact (List.take_of_length_le (by simp; omega)).symm
+
+theorem c02_chunks_concat (data : List Nat) : (chunks60 data).flatten = data := by
+  unfold chunks60
+  have hTP : Const.DL22.TP = 60 := rfl
+  simp only [hTP, List.flatten_append, List.flatten_cons, List.flatten_nil, List.append_nil]
+  generalize data.length / 60 = n
+  induction n with
+  | zero => simp
+  | succ n ih =>
+    rw [List.range_succ, List.map_append, List.flatten_append]
+    simp only [List.map_cons, List.map_nil, List.flatten_cons, List.flatten_nil, List.append_nil]
+    have : (List.map (fun k => List.take 60 (List.drop (k * 60) data)) (List.range n)).flatten ++ List.take 60 (List.drop (n * 60) data) ++
+        List.drop ((n + 1) * 60) data = (List.map (fun k => List.take 60 (List.drop (k * 60) data)) (List.range n)).flatten ++ List.drop (n * 60) data := by
+      rw [List.append_assoc]
+      congr 1
+      have : (n + 1) * 60 = n * 60 + 60 := by omega
+      rw [this, ← List.drop_drop, List.take_append_drop]
+    rw [this]; exact ih
+
+/-- the payload of the FD.TP.DT frame this stack builds: 4 header bytes, the chunk, and 0xFF up to the next CAN FD
+    length — none after a full 60-byte chunk -/
+theorem ins4 (l : List Nat) (a b c d : Nat) : Py.insert (Py.insert (Py.insert (Py.insert l 0 a) 1 b) 2 c) 3 d = a :: b :: c :: d :: l := by
+  simp [Py.insert]
+theorem dt22_data (src dest session seg : Nat) (chunk : List Nat) (hc : chunk.length ≤ 60) :
+    ∃ pad, (Tp22.dt Const.LUT_FD_DLC src dest session seg chunk 0).data =
+      [(0 &&& 15) ||| ((session &&& 15) <<< 4), seg &&& 255, (seg >>> 8) &&& 255, (seg >>> 16) &&& 255] ++ chunk ++ pad ∧
+      (chunk.length = 60 → pad = []) := by
+  unfold Tp22.dt
+  simp only [ins4]
+  by_cases h : chunk.length = 60
+  · refine ⟨[], ?_, fun _ => rfl⟩
+    have : decide ((((0 &&& 15) ||| ((session &&& 15) <<< 4)) :: (seg &&& 255) :: ((seg >>> 8) &&& 255) :: ((seg >>> 16) &&& 255) :: chunk).length ≥ 60 + 4) = true := by
+      simp [h]
+    simp only [this, if_true, List.append_nil, List.cons_append, List.nil_append]
+    exact List.take_of_length_le (by simp [h])
+  · have : decide ((((0 &&& 15) ||| ((session &&& 15) <<< 4)) :: (seg &&& 255) :: ((seg >>> 8) &&& 255) :: ((seg >>> 16) &&& 255) :: chunk).length ≥ 60 + 4) = false := by
+      simp; omega
+    simp only [this, Bool.false_eq_true, if_false, Py.pad]
+    exact ⟨_, rfl, fun h' => absurd h' h⟩
+
+/-- THE FRAMES THIS STACK BUILDS ARE SEGMENT FRAMES: the receive path extracts from the k-th FD.TP.DT frame of a message
+    exactly the session, the segment number k+1 and the k-th chunk (plus padding on the last one only) -/
+theorem c02_built_frame_is_segframe (data : List Nat) (src dest session k : Nat) (hs : session < 16)
+    (hk : k < Tp22.num_segments data.length) (hk24 : k + 1 < 2 ^ 24) :
+    SegFrame data session k (Tp22.dt Const.LUT_FD_DLC src dest session (k + 1) ((data.drop (60 * k)).take 60) 0).data := by
+  have hcl : ((data.drop (60 * k)).take 60).length ≤ 60 := by simp; omega
+  obtain ⟨pad, hd, hpad⟩ := dt22_data src dest session (k + 1) ((data.drop (60 * k)).take 60) hcl
+  have hne : 0 < ((data.drop (60 * k)).take 60).length := by
+    have := (num_segments_spec data.length)
+    have hns : Tp22.num_segments data.length = data.length / 60 + (if data.length % 60 != 0 then 1 else 0) := by
+      unfold Tp22.num_segments Py.b2n; rfl
+    simp only [List.length_take, List.length_drop]
+    rw [hns] at hk
+    split at hk <;> rename_i h <;> simp at h <;> omega
+  rw [hd]
+  refine ⟨by simp only [List.length_append, List.length_cons, List.length_nil]; omega, ?_, ?_, ⟨pad, by simp, ?_⟩⟩
+  · simp only [Tp22.dt_session, Py.idx, List.cons_append, List.getD_cons_zero]
+    rw [Bits.and_15, Bits.and_15, Bits.shl_4, Bits.shr_4, Bits.and_15]
+    have : 0 % 16 ||| session % 16 * 16 = session % 16 * 16 := by simp
+    rw [this]; omega
+  · simp only [Tp22.dt_segment, Py.idx, List.cons_append, List.getD_cons_succ, List.getD_cons_zero]
+    have h24 : k + 1 < 16777216 := by simpa using hk24
+    rw [Bits.and_255, Bits.and_255, Bits.and_255, Bits.and_255, Bits.and_255, Bits.and_255, Bits.shr_8, Bits.shr_16, Bits.shl_8, Bits.shl_16]
+    have e1 : (k + 1) % 256 % 256 ||| (k + 1) / 256 % 256 % 256 * 256 = (k + 1) / 256 % 256 * 256 + (k + 1) % 256 := by
+      have := Bits.mul_or ((k + 1) / 256 % 256) ((k + 1) % 256) 8 (by omega)
+      simp only [Nat.mod_mod] at *
+      rw [Nat.or_comm]; simpa using this
+    rw [e1]
+    have e2 : ((k + 1) / 256 % 256 * 256 + (k + 1) % 256) ||| (k + 1) / 65536 % 256 % 256 * 65536
+        = (k + 1) / 65536 % 256 * 65536 + ((k + 1) / 256 % 256 * 256 + (k + 1) % 256) := by
+      have := Bits.mul_or ((k + 1) / 65536 % 256) ((k + 1) / 256 % 256 * 256 + (k + 1) % 256) 16 (by omega)
+      simp only [Nat.mod_mod] at *
+      rw [Nat.or_comm]; simpa using this
+    rw [e2]; omega
+  · by_cases h60 : ((data.drop (60 * k)).take 60).length = 60
+    · exact Or.inr (hpad h60)
+    · left
+      simp only [List.length_take, List.length_drop] at h60 hne
+      omega
+
+/-- C02, RECEPTION IS EXACT (FD.TP, broadcast and connection mode): a responder record opened for a message of
+    `data.length` bytes, fed the segment frames of `data` in order at arbitrary times (the frames of this stack or of any
+    conforming originator) and then the end-of-message status, hands `data` up EXACTLY ONCE — byte-identical, with the
+    announced PGN — removes the record and never touches the send table -/
+theorem c02_reception_exact (cfg : Cfg) (data : List Nat) (hpos : 0 < data.length) (mid : MessageId) (dest session : Nat)
+    (frames : List (Nat × List Nat)) (hfl : frames.length = Tp22.num_segments data.length)
+    (hframes : ∀ i (h : i < frames.length), SegFrame data session i (frames[i]).2)
+    (s : St) (r : Rcv) (hr : s.rcv.get? (Tp22.buffer_hash session mid.source_address dest) = some r)
+    (hsize : r.messageSize = data.length) (hnext : r.nextPacket = 1) (hdata : r.data = [])
+    (hmr : dest ≠ Const.Addr.GLOBAL → (∃ b, r.ctsBorder = some b) ∧ ∃ m, r.maxRec = some m)
+    (now : Nat) (eom : List Nat) (hel : 12 ≤ eom.length) (hec : Tp22.cm_control eom = Const.CM22.EOM_STATUS)
+    (hes : Tp22.cm_session eom = session) (hesz : Tp22.cm_size eom = data.length) (hen : Tp22.cm_segment eom = r.numSegments) :
+    let s1 := (feedDt s mid dest frames).1
+    deliveries ((feedDt s mid dest frames).2 ++ (processCm cfg s1 now mid dest eom).outs)
+      = [(mid.priority, r.pgn, mid.source_address, dest, data)] ∧
+    (processCm cfg s1 now mid dest eom).err = none ∧
+    (processCm cfg s1 now mid dest eom).st.rcv.get? (Tp22.buffer_hash session mid.source_address dest) = none ∧
+    (processCm cfg s1 now mid dest eom).st.snd = s.snd := by
+  intro s1
+  have hn : 0 < Tp22.num_segments data.length := by
+    have := (num_segments_spec data.length).1; omega
+  obtain ⟨a1, a2, r', hr', h1, h2, h3, h4⟩ := feed22_accumulates data hpos mid dest session (Tp22.num_segments data.length) 0
+    (by omega) hn frames hfl (by intro i hi; simpa using hframes i hi) s r hr hsize (by simpa using hnext) (by simpa using hdata) hmr
+  obtain ⟨e1, e2, e3, e4⟩ := eom22_delivers cfg s1 now mid dest eom r' session hel hec hes (by rw [hesz, h2]) (by rw [hen, h3]) hr'
+    (by rw [h1, h2])
+  refine ⟨?_, e2, e3, by rw [e4, a2]⟩
+  rw [deliveries_append, a1, e1, h4, h1]; rfl
 
 end J1939.Props.C02
